@@ -186,6 +186,20 @@ def run(ctx):
                     ctx.nontriv((name, "keep-protons"))
                     rels.append(relations.relate("SameAll", base, text, rk, htext, textcmp=True,
                                                  meta={"input": name, "edit": "own hydrogens + -k", "pdb": htext, "orig": text}))
+    # --protonate-all on every ligand group type (synthetic ligand kit next to a real fragment)
+    from .. import runbank
+    for name, text, _o in runbank.kit_cases(ctx, every=1 if ctx.thorough() else 9):
+        base = runner.run(text, ["-q"])
+        rp = runner.run(text, ["-q", "--protonate-all"])
+        ctx.count()
+        if base.exc is not None or rp.exc is not None:
+            if (base.exc is None) != (rp.exc is None):
+                ctx.violation(f"protonate-all:exception:{name.split('@')[0]}", f"{name}: default {base.exc!r}, --protonate-all {rp.exc!r}",
+                              {"pdb": text, "optargs": ["--protonate-all"]})
+            continue
+        ctx.nontriv((name, "protonate-all"))
+        rels.append(relations.relate("SameAll", base, text, rp, text, textcmp=True,
+                                     meta={"input": name.split("@")[0], "edit": "--protonate-all", "pdb": text, "orig": text}))
     viol = relations.validate(ctx, rels, ["SameConfs", "SameAll", "SameBonds", "TextSame"], "edited vs original")
     for inv, lst in sorted(viol.items()):
         for rel in lst:
